@@ -74,6 +74,14 @@ F6 == <<CF(1, "f1", "V50"), CF(2, "g1", "V50"),
         CS(7, "TT"), ST(8, SVal("t")),
         CN(3, "AR-PACKAGE", "b"), CS(9, "DESC"), CS(11, "L-2"), SA(12, "L", EVal("EN")),
         ST(12, SVal("txt")), CS(12, "TT"), ST(13, SVal("u")), CN(12, "XREF-TARGET", "x")>>
+\* F7: one target with referrers of different validity: /a/i (I-SIGNAL) is referenced by the FIBEX-ELEMENT-REF of SYSTEM y
+\* (DEST = I-SIGNAL: fits) and by the SYSTEM-SIGNAL-REF of I-SIGNAL m, whose text was edited to /a/i (DEST = SYSTEM-SIGNAL: does not fit)
+\*  3 AR-PACKAGES, 4 a, 5 SN, 6 ELEMENTS, 7 I-SIGNAL i, 8 SN, 9 I-SIGNAL m, 10 SN, 11 SYSTEM-SIGNAL-REF, 12 SYSTEM y, 13 SN,
+\*  14 FIBEX-ELEMENTS, 15 FIBEX-ELEMENT-REF-CONDITIONAL, 16 FIBEX-ELEMENT-REF
+F7 == <<CF(1, "f1", "V50"), CF(2, "g1", "V50"),
+        CS(1, "AR-PACKAGES"), CN(3, "AR-PACKAGE", "a"), CS(4, "ELEMENTS"), CN(6, "I-SIGNAL", "i"), CN(6, "I-SIGNAL", "m"),
+        CS(9, "SYSTEM-SIGNAL-REF"), SA(11, "DEST", EVal("SYSTEM-SIGNAL")), ST(11, PVal(<<"a", "i">>)),
+        CN(6, "SYSTEM", "y"), CS(12, "FIBEX-ELEMENTS"), CS(14, "FIBEX-ELEMENT-REF-CONDITIONAL"), CS(15, "FIBEX-ELEMENT-REF"), SR(16, 7)>>
 AttrValuesDef == {<<"UUID", SVal("u1")>>, <<"DEST", EVal("SYSTEM-SIGNAL")>>, <<"DEST", EVal("I-SIGNAL")>>, <<"NAME-PATTERN", SVal("x")>>,
                   <<"UUID", SVal("say {22}hi{22}")>>}    \* {22}: a double quote (the harness substitutes it)
 =============================================================================
